@@ -154,6 +154,11 @@ def long_rows(rates, accums):
                     continue
                 for accum in accums:
                     rows.append((rate, accel, ticks, accum))
+                # ... and start accumulators that make the long move end one count below, on and
+                # one count above a step boundary
+                base = lt_total_closed(rate, accel, 0, ticks)
+                for target in (TWO31 - 1, TWO31 - 2, 0, 1):
+                    rows.append((rate, accel, ticks, (target - base) % TWO31))
     return rows
 
 
@@ -222,7 +227,7 @@ def run(ctx):
 
 
 def replay(case):
-    if case.get("kind") == "calc_history":
+    if case.get("kind") in ("calc_history", "calc_fresh"):
         from .. import calcseq             # pylint: disable=import-outside-toplevel
         return calcseq.replay(case)
     rate, accel, ticks, accum = case["rate"], case["accel"], case["ticks"], case["accum"]
